@@ -235,6 +235,9 @@ class World:
                     self._a_jk = self._a.copy()
                     self._a_jk_grads = dict()
 
+                def change_shg_mgr(self, shg_mgr):
+                    self._detsigyield_service.shg_mgr = shg_mgr
+
             from skyllh.core.pdfratio import PDFRatio
 
             class CachingRatio(PDFRatio):
@@ -966,6 +969,186 @@ def history_probes(ctx, rng, opa, cases, n, only_caching=None):
                           predicate='legal call sequences do not raise')
 
 
+
+# --------------------------------------------------------------------------- a second fit parameter
+#
+# ParamWorld: two global fit parameters, 'gamma' mapped BEFORE 'ns' (ns_pidx = 1); a data field 'gf' that
+# depends on the global fit parameter gamma and a source data field 'sscale' (1 + dec_k); the signal PDF of the
+# first factor multiplies its density by both.  Exercises: `ns = fitparam_values[ns_pidx]`, the
+# has_global_fitparam_data_fields branch of evaluate (fields BEFORE the ratio), calculate_source_data_fields at
+# construction and through change_shg_mgr.
+
+class ParamWorld(World):
+    def __init__(self, case, decs, weights=None, dataset_idx=0, shared=None):
+        self.decs = list(decs)
+        self.shared = shared              # (shg_mgr, pmm) shared by the datasets of one analysis
+        super().__init__(case, weights=weights, dataset_idx=dataset_idx)
+
+    @staticmethod
+    def build_sources(decs):
+        from skyllh.core.parameters import Parameter, ParameterModelMapper
+        from skyllh.core.source_model import PointLikeSource
+        from skyllh.core.source_hypo_grouping import SourceHypoGroup, SourceHypoGroupManager
+        from skyllh.core.flux_model import NullFluxModel
+        from skyllh.core.detsigyield import NullDetSigYieldBuilder
+        srcs = [PointLikeSource(ra=0.1 * k, dec=d, name=f's{k}', weight=1.0) for k, d in enumerate(decs)]
+        shg_mgr = SourceHypoGroupManager(SourceHypoGroup(srcs, NullFluxModel(), NullDetSigYieldBuilder()))
+        pmm = ParameterModelMapper(models=srcs)
+        pmm.map_param(Parameter('gamma', 2.0, 0.5, 4.0))        # first: ns is NOT at index 0
+        pmm.map_param(Parameter('ns', 1.0, -1e9, 1e9))
+        return (shg_mgr, pmm)
+
+    @staticmethod
+    def other_shg_mgr(decs):
+        from skyllh.core.source_model import PointLikeSource
+        from skyllh.core.source_hypo_grouping import SourceHypoGroup, SourceHypoGroupManager
+        from skyllh.core.flux_model import NullFluxModel
+        from skyllh.core.detsigyield import NullDetSigYieldBuilder
+        srcs = [PointLikeSource(ra=0.1 * k, dec=d, name=f's{k}', weight=1.0) for k, d in enumerate(decs)]
+        return SourceHypoGroupManager(SourceHypoGroup(srcs, NullFluxModel(), NullDetSigYieldBuilder()))
+
+    def make_sources(self, case):
+        return self.shared if self.shared is not None else self.build_sources(self.decs)
+
+    def make_tdm(self, case):
+        from skyllh.core.trialdata import TrialDataManager
+        tdm = TrialDataManager()
+        tdm.add_source_data_field(
+            'sscale', lambda tdm, shg_mgr, pmm: np.array([1.0 + s.dec for s in shg_mgr.source_list], dtype=np.float64))
+        tdm.add_data_field(
+            'gf', lambda tdm, shg_mgr, pmm, global_fitparams_dict=None:
+            np.full((tdm.n_selected_events,), global_fitparams_dict['gamma'], dtype=np.float64),
+            global_fitparam_names=['gamma'])
+        return tdm
+
+    def make_sig_pdf(self, fi, f):
+        st = self.static()
+        if fi != 0:
+            return st.SigPDF(f['S'], cfg=st.cfg)
+        if not hasattr(st, 'SigPDFgf'):
+            class SigPDFgf(st.SigPDF):
+                def get_pd(self, tdm, params_recarray=None, tl=None):
+                    ids = tdm['id']
+                    (s, e) = tdm.src_evt_idxs
+                    return ((self.table[s, ids[e]] * tdm['gf'][e]) * tdm['sscale'][s], dict())
+            st.SigPDFgf = SigPDFgf
+        return st.SigPDFgf(f['S'], cfg=st.cfg)
+
+    gamma = 2.0
+
+    def fp(self, ns):
+        return np.array([self.gamma, ns], dtype=np.float64)
+
+
+def effective_case(case, gamma, decs):
+    """the same case with the first factor's signal densities as the ParamWorld PDF returns them
+    ((table * gamma) * (1 + dec_k), same float operations)"""
+    c = dict(case)
+    f0 = case['factors'][0]
+    S = [[float((np.float64(x) * np.float64(gamma)) * np.float64(1.0 + decs[k])) for x in row]
+         for k, row in enumerate(f0['S'])]
+    c['factors'] = [{'z': f0['z'], 'S': S, 'B': f0['B']}] + list(case['factors'][1:])
+    return c
+
+
+def run_param_world(ctx, rng, opa, n, jobs):
+    """predicates on the implementation (oracle on the effective case) + model comparison through `jobs`"""
+    SITE = 'ZeroSigH0SingleDatasetTCLLHRatio.evaluate'
+    from skyllh.core.llhratio import MultiDatasetTCLLHRatio
+    from skyllh.core.services import DatasetSignalWeightFactorsService
+    st = World.static()
+    for it in range(n):
+        kind = ('single', 'product', 'stacked', 'stacked-product')[it % 4]
+        case = gen_case(ctx, rng, size=(1, 4, 9, 25)[(it // 4) % 4], kind=kind)
+        case['index_field'] = False
+        case['implicit_N'] = False
+        K = case['K']
+        decs = [round(rng.uniform(-0.5, 0.5), 3) for _ in range(K)]
+        decs2 = [round(rng.uniform(-0.5, 0.5), 3) + 0.25 for _ in range(K)]
+        N = case['N']
+        ns1, ns2 = 0.31 * N, 0.9991 * N
+        g1, g2 = 1.25, 3.5
+        ctx.count('param-world:' + kind)
+        try:
+            w = ParamWorld(case, decs)
+            if w.pmm.get_gflp_idx('ns') != 1:
+                ctx.notes.append('ParamWorld: ns is not at index 1')
+            seq = [(g1, ns1), (g2, ns1), (g2, ns2), (g1, ns2), (g1, ns1)]
+            for (g, x) in seq:
+                w.gamma = g
+                v = w.value(x)
+                ec = effective_case(case, g, decs)
+                R = oracle_ratios(ec)
+                ov, scale, _ = oracle_value(R, N, x, opa)
+                if not close(v, ov, PRED_RTOL * (scale + 1.0)):
+                    ctx.violation(SITE, 'value-differs-with-second-fit-parameter',
+                                  f'fitparam_values=[gamma={g!r}, ns={x!r}] (ns at index 1, densities depend on gamma '
+                                  f'through a global-fit-parameter data field): evaluate -> {v!r}, formula -> {ov!r}',
+                                  case=dict(lean(case), param_world={'decs': decs, 'gamma': g, 'seq': seq}, ns=[x]),
+                                  impl=v, model=ov,
+                                  predicate='value = formula at the CURRENT parameter point; ns read at its own index')
+                    break
+                jobs.append((ec, x, v, [float(r) for r in R], model_line(ec, x, opa)))
+            # ---- change_shg_mgr on the multi-dataset function must reach every dataset's function
+            a_jk = [list(case['a_k']), [a * 1.5 for a in case['a_k']]]
+            shared = ParamWorld.build_sources(decs)
+            weights = st.StubWeights(a_jk, shared[0])
+            weights.calculate(None)
+            c2 = variant(case, rng)
+            c2['a_k'] = a_jk[1]
+            c1 = dict(case, a_k=a_jk[0])
+            ws = [ParamWorld(c, decs, weights=weights, dataset_idx=j, shared=shared) for j, c in enumerate((c1, c2))]
+            dsw = DatasetSignalWeightFactorsService(weights)
+            m = MultiDatasetTCLLHRatio(pmm=shared[1], minimizer=st.minimizer, src_detsigyield_weights_service=weights,
+                                       ds_sig_weight_factors_service=dsw, llhratio_list=[w_.llh for w_ in ws], cfg=st.cfg)
+            m.initialize_for_new_trial()
+
+            def multi_check(dd, tag):
+                with np.errstate(all='ignore'), warnings.catch_warnings():
+                    warnings.simplefilter('ignore')
+                    (v, _) = m.evaluate(np.array([g1, ns1], dtype=np.float64))
+                (f, _) = dsw.get_weights()
+                tot, sc = [], 0.0
+                for c, fj in zip((c1, c2), f):
+                    ec = effective_case(c, g1, dd)
+                    o, s_, _ = oracle_value(oracle_ratios(ec), c['N'], float(np.float64(ns1) * np.float64(fj)), opa)
+                    tot.append(o)
+                    sc += s_
+                ov = math.fsum(tot)
+                if not close(float(v), ov, PRED_RTOL * (sc + 1.0)):
+                    ctx.violation('MultiDatasetTCLLHRatio.' + tag, 'value-differs-from-sum-of-dataset-formulas',
+                                  f'{tag}: evaluate -> {float(v)!r}, sum_j formula -> {ov!r}',
+                                  case={'multi': [lean(c1), lean(c2)], 'param_world': {'decs': dd, 'gamma': g1}, 'ns': [ns1]},
+                                  impl=float(v), model=ov,
+                                  predicate='after change_shg_mgr every dataset uses the new source hypotheses')
+            multi_check(decs, 'evaluate')
+            shg2 = ParamWorld.other_shg_mgr(decs2)
+            weights._detsigyield_service.shg_mgr = shg2          # what the real service's detsigyield service would hold
+            m.change_shg_mgr(shg2)
+            for w_ in ws:
+                if w_.llh.shg_mgr is not shg2:
+                    ctx.violation('MultiDatasetTCLLHRatio.change_shg_mgr', 'dataset-llhratio-keeps-old-shg-mgr',
+                                  'a per-dataset llh-ratio function still holds the previous SourceHypoGroupManager',
+                                  case={'multi': [lean(c1), lean(c2)], 'param_world': {'decs': decs2}},
+                                  predicate='change_shg_mgr is forwarded to every dataset')
+                    break
+            multi_check(decs2, 'change_shg_mgr')
+            # ---- the public `events` setter changes N' and N - N', not N
+            ev = w.tdm.events
+            n0, k0 = w.tdm.n_events, w.tdm.n_selected_events
+            if k0 >= 2:
+                w.tdm.events = ev[np.arange(k0 - 1)]
+                if (w.tdm.n_events, w.tdm.n_selected_events, w.tdm.n_pure_bkg_events) != (n0, k0 - 1, n0 - k0 + 1):
+                    ctx.violation('TrialDataManager.events', 'wrong-event-counts-after-events-setter',
+                                  f'n_events={w.tdm.n_events} n_selected={w.tdm.n_selected_events} '
+                                  f'n_pure_bkg={w.tdm.n_pure_bkg_events}, expected {n0}, {k0 - 1}, {n0 - k0 + 1}',
+                                  case=lean(case), predicate='events setter: N unchanged, N\' = len(events), N-N\' follows')
+        except Exception as ex:
+            ctx.violation(SITE, 'param-world-raises-' + type(ex).__name__, f'{type(ex).__name__}: {ex}',
+                          case=dict(lean(case), param_world={'decs': decs}), impl=type(ex).__name__,
+                          predicate='evaluate works with a second fit parameter and fit-parameter dependent data fields')
+
+
 # --------------------------------------------------------------------------- multi-dataset
 
 def run_multi(ctx, rng, exe, opa, n):
@@ -1130,7 +1313,7 @@ def check_selection_theorem(ctx):
 
 # --------------------------------------------------------------------------- corpus / run / replay
 
-def corpus_cases():
+def corpus_cases(opa=1e-3):
     """fixed regression inputs: every regime the property names, by hand"""
     B = [1.0, 2.0, 4.0, 0.0, 8.0, 1.0]
     S = [[2.0, 0.0, 4e12, 7.0, 8e-6, 1.0]]
@@ -1143,7 +1326,23 @@ def corpus_cases():
           'factors': [{'z': 1.5, 'S': [[1.0, 2.0, 3.0, 4.0], [5.0, 6.0, 7.0, 8.0]], 'B': [1.0, 2.0, 0.0, 4.0]},
                       {'z': 1.0, 'S': [[0.5, 1.0, 1.5, 2.0], [2.5, 3.0, 3.5, 4.0]], 'B': [2.0, 3.0, 1.0, 5.0]}],
           'malformed': None, 'ns': [0.0, 2.5, 6.99, -0.1]}
-    return [base, sel, st]
+    # background densities of every magnitude down to 1e-12 (all positive: none may be treated as zero)
+    Bs = [1e-12, 1e-9, 1e-7, 1e-5, 1e-4, 5e-4]
+    Rr = [2.0, 0.5, 30.0, 1e-3, 7.0, 1.0]
+    small = dict(base, factors=[{'z': 1.0, 'S': [[r * b for r, b in zip(Rr, Bs)]], 'B': Bs}],
+                 ns=[0.0, 3.0, 9.99, -0.2])
+    # more selected events than any chunk / buffer size one would pick (N' = 5000)
+    nbig = 5000
+    big = {'kind': 'single', 'K': 1, 'n_all': nbig, 'N': nbig + 1000, 'order': list(range(nbig)), 'selected': None,
+           'pairs': None, 'stacked': False, 'a_k': [1.0],
+           'factors': [{'z': 1.0, 'S': [[0.25 + (i % 7) * 0.3 + (i // 4096) * 5.0 for i in range(nbig)]],
+                        'B': [1.0 + (i % 3) for i in range(nbig)]}],
+           'malformed': None, 'ns': [0.0, 2500.0, 5994.0]}
+    # one event exactly AT the threshold: X = -1, ns = 1 - threshold  =>  ns X = threshold - 1 bit for bit
+    thr = {'kind': 'single', 'K': 1, 'n_all': 2, 'N': 2, 'order': [0, 1], 'selected': [0], 'pairs': [[0, 0]],
+           'stacked': False, 'a_k': [1.0], 'factors': [{'z': 1.0, 'S': [[0.0, 3.0]], 'B': [1.0, 1.0]}],
+           'malformed': None, 'ns': [2.0 * (1.0 - opa)]}
+    return [base, sel, st, small, big, thr]
 
 
 def run(ctx):
@@ -1155,7 +1354,7 @@ def run(ctx):
                       predicate='0 < threshold < 1 (needed for value 0 at ns = 0 and for log(1+alpha))')
     check_selection_theorem(ctx)
     exe = common.ocaml_build(ctx, 'c01') if ctx.model_ok else None
-    cases = corpus_cases()
+    cases = corpus_cases(opa)
     n_cases = ctx.budget(600, 30000)
     # explicit quotas: every N' bucket incl. large, every composition kind
     for size in ([300, 3000] if not ctx.thorough() else [300, 1000, 3000, 3000]):
@@ -1186,6 +1385,7 @@ def run(ctx):
                 'a_k': c['a_k']})
     ctx.sample({'corpus_base_ns': corpus_cases()[0]['ns'], 'threshold': opa})
     history_probes(ctx, rng, opa, cases[:3] + cases[-600:], ctx.budget(45, 600))
+    run_param_world(ctx, rng, opa, ctx.budget(16, 200), jobs)
     try:
         if exe:
             compare_model(ctx, jobs, exe, opa)
